@@ -14,6 +14,7 @@ import (
 	"github.com/vektah/gqlparser/v2"
 	"github.com/vektah/gqlparser/v2/ast"
 	"github.com/vektah/gqlparser/v2/formatter"
+	"github.com/vektah/gqlparser/v2/parser"
 )
 
 var introspectionQueryName string = "IntrospectionQuery"
@@ -251,6 +252,7 @@ func parseType(remoteType IntrospectionQueryFullType) *ast.Definition {
 			definition.EnumValues = append(definition.EnumValues, &ast.EnumValueDefinition{
 				Name:        value.Name,
 				Description: value.Description,
+				Directives:  deprecatedDirective(value.IsDeprecated, value.DeprecationReason),
 			})
 		}
 	}
@@ -265,6 +267,7 @@ func parseType(remoteType IntrospectionQueryFullType) *ast.Definition {
 			Type:        parseTypeRef(&field.Type),
 			Description: field.Description,
 			Arguments:   parseArgList(field.Args),
+			Directives:  deprecatedDirective(field.IsDeprecated, field.DeprecationReason),
 		})
 	}
 
@@ -278,23 +281,47 @@ func parseType(remoteType IntrospectionQueryFullType) *ast.Definition {
 	return definition
 }
 
+// deprecatedDirective turns isDeprecated / deprecationReason back into @deprecated
+func deprecatedDirective(isDeprecated bool, reason string) ast.DirectiveList {
+	if !isDeprecated {
+		return nil
+	}
+	d := &ast.Directive{Name: "deprecated", Position: &ast.Position{}}
+	if reason != "" {
+		d.Arguments = ast.ArgumentList{{
+			Name:     "reason",
+			Position: &ast.Position{},
+			Value:    &ast.Value{Raw: reason, Kind: ast.StringValue, Position: &ast.Position{}},
+		}}
+	}
+	return ast.DirectiveList{d}
+}
+
 func parseInputField(field IntrospectionInputValue) *ast.FieldDefinition {
 	fd := &ast.FieldDefinition{
 		Name:        field.Name,
 		Type:        parseTypeRef(&field.Type),
 		Description: field.Description,
 	}
-	if field.DefaultValue == nil {
-		return fd
+	fd.DefaultValue = parseDefaultValue(fd.Type, field.DefaultValue)
+	return fd
+}
+
+// parseDefaultValue converts the defaultValue of an input field or argument. Services report it
+// either as a JSON value (42, true, [1, 2]) or, as the specification prescribes, as a string
+// holding the GraphQL literal ("42", "true", "\"text\"").
+func parseDefaultValue(typ *ast.Type, defaultValue interface{}) *ast.Value {
+	if defaultValue == nil || typ == nil {
+		return nil
 	}
 
-	bRaw, err := json.Marshal(field.DefaultValue)
+	bRaw, err := json.Marshal(defaultValue)
 	if err != nil {
-		return fd
+		return nil
 	}
 
-	isArray := fd.Type.Elem != nil
-	kindStr := fd.Type.Name()
+	isArray := typ.Elem != nil
+	kindStr := typ.Name()
 
 	var vKind ast.ValueKind
 
@@ -309,10 +336,21 @@ func parseInputField(field IntrospectionInputValue) *ast.FieldDefinition {
 		vKind = ast.StringValue
 	}
 
+	// the specification's form: a string holding the literal. A bare word is not taken for
+	// a literal (it is what a service that reports JSON values sends for a string default).
+	if literal, ok := defaultValue.(string); ok {
+		if v := parseLiteral(literal); v != nil && v.Kind != ast.EnumValue && v.Kind != ast.Variable {
+			stringLike := !isArray && (kindStr == "String" || kindStr == "ID")
+			if !stringLike || v.Kind == ast.StringValue || v.Kind == ast.BlockValue {
+				return v
+			}
+		}
+	}
+
 	if isArray {
-		arr, ok := field.DefaultValue.([]interface{})
+		arr, ok := defaultValue.([]interface{})
 		if !ok {
-			return fd
+			return nil
 		}
 
 		var children ast.ChildValueList
@@ -320,7 +358,7 @@ func parseInputField(field IntrospectionInputValue) *ast.FieldDefinition {
 		for _, el := range arr {
 			elRaw, err := json.Marshal(el)
 			if err != nil {
-				return fd
+				return nil
 			}
 			if vKind == ast.StringValue && len(elRaw) > 2 {
 				// stash additional "" after json marshalling
@@ -336,12 +374,11 @@ func parseInputField(field IntrospectionInputValue) *ast.FieldDefinition {
 			})
 		}
 
-		fd.DefaultValue = &ast.Value{
+		return &ast.Value{
 			Position: &ast.Position{},
 			Kind:     ast.ListValue,
 			Children: children,
 		}
-		return fd
 	}
 
 	if vKind == ast.StringValue && len(bRaw) > 2 {
@@ -349,13 +386,24 @@ func parseInputField(field IntrospectionInputValue) *ast.FieldDefinition {
 		bRaw = bRaw[1 : len(bRaw)-1]
 	}
 
-	fd.DefaultValue = &ast.Value{
+	return &ast.Value{
 		Position: &ast.Position{},
 		Raw:      string(bRaw),
 		Kind:     vKind,
 	}
+}
 
-	return fd
+// parseLiteral parses a GraphQL value literal, nil if it is not one
+func parseLiteral(literal string) *ast.Value {
+	doc, err := parser.ParseQuery(&ast.Source{Input: "{f(a: " + literal + ")}"})
+	if err != nil || len(doc.Operations) != 1 || len(doc.Operations[0].SelectionSet) != 1 {
+		return nil
+	}
+	field, ok := doc.Operations[0].SelectionSet[0].(*ast.Field)
+	if !ok || len(field.Arguments) != 1 {
+		return nil
+	}
+	return field.Arguments[0].Value
 }
 
 func parseArgList(args []IntrospectionInputValue) ast.ArgumentDefinitionList {
@@ -363,10 +411,12 @@ func parseArgList(args []IntrospectionInputValue) ast.ArgumentDefinitionList {
 
 	// we need to add each argument to the field
 	for _, argument := range args {
+		typ := parseTypeRef(&argument.Type)
 		result = append(result, &ast.ArgumentDefinition{
-			Name:        argument.Name,
-			Description: argument.Description,
-			Type:        parseTypeRef(&argument.Type),
+			Name:         argument.Name,
+			Description:  argument.Description,
+			Type:         typ,
+			DefaultValue: parseDefaultValue(typ, argument.DefaultValue),
 		})
 	}
 
